@@ -53,6 +53,15 @@ def check_dateinterval(ctx, case):
     ctx.key(("date", cid, _rel(a, la, b, lb), min(la, 3), min(lb, 3), a <= lo + 1, a + la >= hi - 1))
     def V(k, obs=None, exp=None):
         ctx.V(f"C18:dateinterval-{k}", f"DateInterval {k} wrong in {cid}: A=[{a},{a+la}] B=[{b},{b+lb}] observed={obs!r} expected={exp!r}", case, obs, exp)
+    # iteration is repeatable whatever an earlier, abandoned or nested iteration did
+    if la >= 1 and la <= 60:
+        F = DateInterval(D(a), D(a + la))
+        g0 = iter(F); first = next(g0)
+        nested = [(gen.day_of(x), sum(1 for _ in F)) for x in F][:3]
+        again = [gen.day_of(x) for x in F]
+        if gen.day_of(first) != a or again != list(sa) or any(n_ != la + 1 for _, n_ in nested) or any(D(a) == y for y in F) is not True:
+            V("iter-after-partial-iteration", again[:5], list(sa)[:5])
+        if [gen.day_of(x) for x in g0] != list(sa)[1:]: V("iter-resumed", None, None)
     if len(A) != len(sa): V("len", len(A), len(sa))
     it = [gen.day_of(x) for x in A]
     if it != list(sa): V("iter", it[:5], list(sa)[:5])
@@ -163,31 +172,48 @@ def check_interval(ctx, case):
     if sb < sa:
         V("ctor-end-before-start-accepted"); return
     ctx.key(("iv", a is None, b is None, c is None, d is None, _irel(sa, sb, c, d)))
-    if iv.has_start != (a is not None) or iv.has_end != (b is not None): V("has", (iv.has_start, iv.has_end))
-    pts = [gen.INST_MIN_NS, gen.INST_MAX_NS] + [v + k for v in (a, b, c, d) if v is not None for k in (-1, 0, 1) if gen.INST_MIN_NS <= v + k <= gen.INST_MAX_NS]
-    for x in pts:
-        exp = sa <= x < sb
-        # documented: an interval with no end contains Instant.max_value
-        ix = ins(x)
-        if (ix in iv) != exp: V("contains", (x, ix in iv), exp)
-        if iv.contains(ix) != exp: V("contains-method", x, exp)
-    for nm, val in (("start", a), ("end", b)):
+    def observe(iv, tag):
+        if iv.has_start != (a is not None) or iv.has_end != (b is not None): V(tag + "has", (iv.has_start, iv.has_end))
+        pts = [gen.INST_MIN_NS, gen.INST_MAX_NS] + [v + k for v in (a, b, c, d) if v is not None for k in (-1, 0, 1) if gen.INST_MIN_NS <= v + k <= gen.INST_MAX_NS]
+        for x in pts:
+            exp = sa <= x < sb
+            # documented: an interval with no end contains Instant.max_value
+            ix = ins(x)
+            if (ix in iv) != exp: V(tag + "contains", (x, ix in iv), exp)
+            if iv.contains(ix) != exp: V(tag + "contains-method", x, exp)
+        for nm, val in (("start", a), ("end", b)):
+            try:
+                g = getattr(iv, nm)
+                if val is None: V(tag + f"{nm}-unbounded-returned", repr(g))
+                elif gen.inst_ns(g) != val: V(tag + nm, gen.inst_ns(g), val)
+            except RuntimeError:
+                if val is not None: V(tag + f"{nm}-raises")
         try:
-            g = getattr(iv, nm)
-            if val is None: V(f"{nm}-unbounded-returned", repr(g))
-            elif gen.inst_ns(g) != val: V(nm, gen.inst_ns(g), val)
-        except RuntimeError:
-            if val is not None: V(f"{nm}-raises")
-    try:
-        dur = iv.duration
-        if a is None or b is None: V("duration-unbounded-returned", repr(dur))
-        elif dur.to_nanoseconds() != b - a: V("duration", dur.to_nanoseconds(), b - a)
-    except (RuntimeError, OverflowError, ValueError) as e:
-        ctx.exc(e)
-        if a is not None and b is not None and gen.DUR_MIN_NS <= b - a <= gen.DUR_MAX_NS: V("duration-raises", repr(e))
-    dec = list(iv)
-    if len(dec) != 2 or (dec[0] is None) != (a is None) or (dec[1] is None) != (b is None) or (a is not None and gen.inst_ns(dec[0]) != a) or (b is not None and gen.inst_ns(dec[1]) != b):
-        V("deconstruct", [repr(x) for x in dec], (a, b))
+            dur = iv.duration
+            if a is None or b is None: V(tag + "duration-unbounded-returned", repr(dur))
+            elif dur.to_nanoseconds() != b - a: V(tag + "duration", dur.to_nanoseconds(), b - a)
+        except (RuntimeError, OverflowError, ValueError) as e:
+            ctx.exc(e)
+            if a is not None and b is not None and gen.DUR_MIN_NS <= b - a <= gen.DUR_MAX_NS: V(tag + "duration-raises", repr(e))
+        dec = list(iv)
+        if len(dec) != 2 or (dec[0] is None) != (a is None) or (dec[1] is None) != (b is None) or (a is not None and gen.inst_ns(dec[0]) != a) or (b is not None and gen.inst_ns(dec[1]) != b):
+            V(tag + "deconstruct", [repr(x) for x in dec], (a, b))
+
+    observe(iv, "")
+    # a copy (copy / deepcopy / pickle round trip) of an interval - bounded or not - is the same interval
+    import copy
+    import pickle
+    for cn, cf in (("copy", copy.copy), ("deepcopy", copy.deepcopy), ("pickle", lambda x: pickle.loads(pickle.dumps(x)))):
+        try:
+            iv2 = cf(iv)
+        except Exception as e:  # noqa: BLE001  (protocol not supported: not judged)
+            ctx.exc(e); ctx.count("interval_copy_unsupported"); continue
+        ctx.count("interval_copies")
+        try:
+            observe(iv2, f"{cn}:")
+            if iv2 != iv or hash(iv2) != hash(iv): V(f"{cn}:not-equal-to-original", repr(iv2), repr(iv))
+        except Exception as e:  # noqa: BLE001
+            ctx.exc(e); V(f"{cn}:raised:{type(e).__name__}", repr(e))
     # equality against a second interval
     sc = -INF if c is None else c; sd = INF if d is None else d
     if sd >= sc:
